@@ -5,6 +5,7 @@
 //!   glob.match <files field> <path>                  -> `1` | `0` | `PANIC`
 //!       (a one-line Files field: since fix 546a36f both views split it on white space, so a
 //!        space separates patterns; a field without white space is one pattern)
+//!   glob.big <unit> <n> <path unit> <m>             -> the same for the pattern unit x n, path unit x m
 //!   cpr.find   <text> <path> <strict_ok> <paras>     -> `L[..] R[..] Y[..]`
 //!
 //! `<paras>` / `<strict_ok>` are what the real deb822 reader makes of `<text>` (the generator
@@ -384,6 +385,51 @@ pub fn handle(op: &str, a: &[&str]) -> Option<Resp> {
             }
             Some(Resp::with(obs.to_string(), fail))
         }
+        // a long pattern: `unit` x n against the path `punit` x m. `glob_to_regex` ends in
+        // `Regex::new(..).unwrap()` and the regex crate refuses compiled programs above 10 MB
+        // (measured: `?` x 10486, `*` x 10083, `a` x 327675, `é` x 163838 panic with CompiledTooBig;
+        // audit C17 D1). The generated family stays below those sizes, where the model (which
+        // has no size limit) and the code must agree; the oracle is the closed form for a
+        // one-kind pattern.
+        ("glob.big", [u, n, pu, m]) => {
+            let u = ds(u)?;
+            let pu = ds(pu)?;
+            let n: usize = n.parse().ok()?;
+            let m: usize = m.parse().ok()?;
+            if u.chars().any(char::is_whitespace) || u.is_empty() || n == 0 || u.len() * n > 1_000_000 || pu.len() * m > 1_000_000 {
+                return None;
+            }
+            let g = u.repeat(n);
+            let p = pu.repeat(m);
+            let r = match glob_via_lossy(&g, &p) {
+                Ok(r) => r,
+                Err(e) => return Some(Resp::with("CONVERT-ERROR".into(), Some(e))),
+            };
+            let obs = match &r {
+                Ans::Val(true) => "1",
+                Ans::Val(false) => "0",
+                Ans::Panic => "PANIC",
+            };
+            let mut fail = None;
+            if !p.contains('\n') {
+                let want = match u.as_str() {
+                    "?" => Some(p.chars().count() == n),
+                    "*" => Some(true),
+                    "a?" => Some({
+                        let pc = chars(&p);
+                        pc.len() == 2 * n && pc.iter().step_by(2).all(|c| *c == 'a')
+                    }),
+                    lit if !lit.contains(['*', '?', '\\']) => Some(p == g),
+                    _ => None,
+                };
+                if let Some(w) = want {
+                    if r != Ans::Val(w) {
+                        fail = Some(format!("glob {:?} x {} on path {:?} x {}: expected {} got {}", u, n, pu, m, ebool(w), obs));
+                    }
+                }
+            }
+            Some(Resp::with(obs.to_string(), fail))
+        }
         ("cpr.find", [t, p, so, ps]) => {
             let text = ds(t)?;
             let path = ds(p)?;
@@ -535,6 +581,20 @@ fn gen_globs(thorough: bool, rng: &mut Rng, out: &mut Out) {
     }
     for (g, p) in extra {
         out.req("glob.match", &[es(&g), es(&p)]);
+    }
+    // family glob.big: long patterns BELOW the regex crate's compiled-size limit (see `glob.big`)
+    let big: [(&str, usize, &[(&str, usize)]); 6] = [
+        ("?", 10000, &[("b", 10000), ("b", 9999), ("b", 10001), ("z", 3), ("é", 10000), ("", 0)]),
+        ("*", 9000, &[("z", 3), ("", 0), ("a/b", 1000), ("a\nb", 1)]),
+        ("a", 300000, &[("a", 300000), ("a", 299999), ("z", 3)]),
+        ("a?", 5000, &[("ab", 5000), ("ba", 5000), ("ab", 4999)]),
+        ("é", 150000, &[("é", 150000), ("e", 150000)]),
+        ("x.", 1000, &[("x.", 1000), ("xy", 1000)]),
+    ];
+    for (u, n, paths) in big {
+        for (pu, m) in paths {
+            out.req("glob.big", &[es(u), n.to_string(), es(pu), m.to_string()]);
+        }
     }
 }
 
